@@ -7,6 +7,7 @@ use super::{FileFilter, FileScanner};
 use super::{ScanResult, StructureScanConfig};
 use crate::checker::{DirStats, StructureViolation};
 use crate::error::Result;
+use crate::output::path::normalize_for_matching;
 use crate::state::is_own_state_entry;
 
 pub struct DirectoryScanner<F: FileFilter> {
@@ -337,6 +338,13 @@ impl<'a> StructureScanState<'a> {
         let Some(cfg) = self.structure_config else {
             return;
         };
+
+        // The project root has no name inside the project: name lists cannot refer to it,
+        // however the scan root is spelled (`.` has no file name at all, the absolute
+        // spelling ends in the name of the project directory itself)
+        if normalize_for_matching(path).as_os_str().is_empty() {
+            return;
+        }
 
         // Find matching per-rule for parent directory (needed for override checks)
         let matching_rule = path
